@@ -204,7 +204,9 @@ class Lexer:
 
     def t_RPAR(self, token):
         r'\)'
-        token.lexer.pop_state()
+        # An unmatched ')' has no state to leave; the parser reports it.
+        if token.lexer.lexstatestack:
+            token.lexer.pop_state()
         return token
 
     def t_ANY_BOOLEAN(self, token):
